@@ -40,6 +40,24 @@ CHECKS = {
  "C13": dict(cat="exploration", ref="7 C13",
    text="Whole server on the simulated transport under item limits 1 KiB..4 MiB: a request with body length limit-1 / limit / limit+1 / 2x / 16 MiB of every opcode at any pipeline position, with the simulator choosing exactly how many body bytes are readable when the oversized header is parsed (0, 1, half+-1, all-1, all, all + following requests, around the 4 KiB initial buffer); 0x03 above the limit only, exactly body_length bytes discarded, following requests answered in order, store unchanged.",
    tech="deterministic simulation: simulator-controlled split of the oversized body between reads"),
+ "C03": dict(cat="exploration", ref="7 C03",
+   text="Ring T: 2-3 clients x 1-2 operations from get / set / cas-set (current, stale) / delete (with, without CAS) on one key (+ bystander) against every initial state (absent, present, present-but-expired), executed on real threads under a baton scheduler that owns every DashMap shard-lock acquire, every access to the CAS counter, every clock read and operation invoke/return; seeded random and PCT schedules; each history (+ final sequential reads) is checked for linearizability against the reference model by exhaustive search over real-time-respecting orders. Right level: the property quantifies over interleavings at the store's internal step granularity, which the scheduler samples and replays exactly; the OS-scheduled stress half of the quantifier is runtime monitoring and is not done.",
+   tech="deterministic simulation: baton scheduler over real threads (scheduler-owned shard locks and atomics), seeded schedule search, linearizability checker",
+   note="Trusted base: scheduler sequentially consistent; DashMap's parking-lot lock taken only after the scheduler granted it; reference model of section 6.1. Sampling of schedules, not enumeration."),
+ "C04": dict(cat="exploration", ref="7 C04",
+   text="Ring T as for C03 with add / replace / append / prepend / incr / decr mixed with get / set / delete; histories are checked for linearizability under the atomic specification. memc-rs implements all six commands as get-then-set: histories that are not linearizable atomically but are explained exactly by splitting the named commands into their read step and their write step (relaxed specification) are attributed to the open known findings rmw-window:<command>; any history that even the relaxed specification cannot explain is a VIOLATION.",
+   tech="deterministic simulation: baton scheduler, seeded schedule search, linearizability checker with relaxed-spec attribution of known findings",
+   note="Trusted base as C03; the relaxed specification (lin.rs) models memc-rs's Cache::set semantics and is used only to decide whether a failing history is one of the recorded read-modify-write windows."),
+ "C14": dict(cat="exploration", ref="7 C14",
+   text="Sequential (ring H): workloads of stores/overwrites/appends/counter updates/deletes/flushes/expiries under random eviction with limits 0..100000 and record sizes around and above the limit; after every single command the sum of Record::len() over the inner store must be <= limit + record just written and a record just acknowledged must be present. Concurrent (ring T, 1 run in 5): 2-3 clients x 1-3 stores/deletes under seeded schedules; at the end the sum must be <= limit + one record per store that overlapped another store + the last store. Victim choice is seeded (hook), iteration order deterministic.",
+   tech="deterministic simulation: per-command invariant on ring H + scheduler-controlled concurrent programs on ring T"),
+ "C15": dict(cat="exploration", ref="7 C15",
+   text="Ring H, long workloads (30..10000 commands of every kind) over a live set of 2-5 small items under a limit 20-1000x the live set. After every command accounted usage (hook accessor) minus stored bytes must not grow; every growth is attributed to an exact mechanism (overwrite adds without subtracting the replaced record; failed conditional store still counted; expired item collected on access; flush bypasses the accounting) by matching the amount, and anything not matched exactly is a VIOLATION (drift:unexplained). Behavioural form: a model-live key that misses is a VIOLATION unless the accounted usage had exceeded the limit (the recorded consequence of the drift). The four mechanisms and the consequence are open known findings with embedded 2-3 command histories.",
+   tech="deterministic simulation: per-command accounting invariant with exact attribution + reference model"),
+ "C16": dict(cat="exploration", ref="7 C16",
+   text="Ring T: 2-3 clients issuing any commands (single-key, multi-key, immediate and delayed flush over all shards, stores that trigger eviction sweeps, expiry collection) under seeded random / PCT schedules; the scheduler keeps the holder table of every shard lock and only grants a thread whose next acquire can succeed, so 'no thread can be granted, some unfinished' is an exact deadlock (reported with who waits for which lock held by whom); a step budget (20000 scheduling points, programs need < 500) reports livelock; a 30 s wall-clock watchdog reports a step that never reaches a scheduling point.",
+   tech="deterministic simulation: baton scheduler with exact deadlock detection and step budget",
+   note="Trusted base: the scheduler's holder table mirrors DashMap's lock protocol (read/write/try/downgrade); the OS-scheduled stress half of the quantifier is not done."),
 }
 
 def cmd(pid, tier):
